@@ -220,9 +220,11 @@ def load_findings(prop):
 
 def default_canon(case, r):
     """link errors come out in the iteration order of a HashMap: compare error lists as sets"""
-    if r is None or "E:[" not in r and "err=[" not in r:
+    if r is None or ("E:[" not in r and "err=[" not in r and "L:" not in r):
         return r
-    return re.sub(r"\[([^\[\]]*;[^\[\]]*)\]", lambda m: "[" + ";".join(sorted(m.group(1).split(";"))) + "]", r)
+    r = re.sub(r"\[([^\[\]]*;[^\[\]]*)\]", lambda m: "[" + ";".join(sorted(m.group(1).split(";"))) + "]", r)
+    # underline ranges of a listed line follow the same order
+    return re.sub(r"(L:[0-9a-f]*:)\[([0-9,\-]*)\]", lambda m: m.group(1) + "[" + ",".join(sorted(m.group(2).split(","))) + "]", r)
 
 
 def write_replay(prop, payload):
